@@ -27,6 +27,11 @@ var missingNative = map[string]int{}
 
 func externalCall(caller *frame, pos token.Pos, fn *ssa.Function, args []Val) (Val, bool) {
 	name := fn.String()
+	if len(overrides) > 0 {
+		if to, ok := overrides[name]; ok {
+			return callSSA(caller, pos, to, args, nil), true
+		}
+	}
 	if f, ok := intrinsics[name]; ok {
 		return f(caller, fn, args), true
 	}
@@ -61,6 +66,9 @@ func externalCall(caller *frame, pos token.Pos, fn *ssa.Function, args []Val) (V
 			unsupported("no Go body for " + name + " (assembly or linkname)")
 		}
 		return nil, false
+	}
+	if isBigPkgFunc(fn) {
+		return bigMethodNative(caller, fn, args), true
 	}
 	// native receiver?
 	if fn.Signature.Recv() != nil && len(args) > 0 {
@@ -153,6 +161,13 @@ func toNative(fr *frame, v Val, rt reflect.Type) reflect.Value {
 	case reflect.Ptr, reflect.Map, reflect.Chan, reflect.Func:
 		if isNilVal(v) {
 			return reflect.Zero(rt)
+		}
+		if p, ok := v.(*Val); ok && (rt == bigIntRT || rt == bigRatRT || rt == bigFloatRT) {
+			if nat, ok := bigToNative(p, rt); ok {
+				bigArgs = append(bigArgs, bigArg{p, nat})
+				return nat
+			}
+			panic(notMarshallable{"symbolic math/big value"})
 		}
 	case reflect.Interface:
 		if i, ok := v.(Iface); ok {
@@ -410,6 +425,14 @@ func fromNative(rv reflect.Value, t types.Type) Val {
 		if rv.IsNil() {
 			return (*Val)(nil)
 		}
+		for _, a := range bigArgs {
+			if a.nat.Pointer() == rv.Pointer() {
+				return a.cell
+			}
+		}
+		if c, ok := bigFromNative(rv); ok {
+			return c
+		}
 		return Native{rv}
 	case reflect.Map, reflect.Chan, reflect.Func:
 		if rv.IsNil() {
@@ -440,6 +463,12 @@ func interpError(msg string) Val {
 
 func callNative(fr *frame, name string, nf reflect.Value, args []Val, sig *types.Signature) (res Val) {
 	ft := nf.Type()
+	bigStart := len(bigArgs)
+	if pendingBigRecv != nil {
+		bigArgs = append(bigArgs, *pendingBigRecv)
+		pendingBigRecv = nil
+	}
+	defer func() { bigArgs = bigArgs[:bigStart] }()
 	defer func() {
 		if r := recover(); r != nil {
 			if nm, ok := r.(notMarshallable); ok {
@@ -492,6 +521,17 @@ func callNative(fr *frame, name string, nf reflect.Value, args []Val, sig *types
 		}
 	}
 	rs := sig.Results()
+	// results first (identity with big pointer arguments), then write-back
+	defer func() {
+		for _, a := range bigArgs[bigStart:] {
+			if v, ok := bigFromNative(a.nat); ok {
+				nv := *(v.(*Val))
+				if !bigSame(*a.cell, nv) {
+					setCell(a.cell, nv)
+				}
+			}
+		}
+	}()
 	switch len(out) {
 	case 0:
 		return nil
@@ -554,6 +594,10 @@ func init() {
 	ident := func(fr *frame, fn *ssa.Function, args []Val) Val { return args[0] }
 	// --- runtime / abi ---
 	reg("internal/abi.NoEscape", ident)
+	reg("(runtime.errorString).Error", func(fr *frame, fn *ssa.Function, args []Val) Val {
+		return strBinop(token.ADD, "runtime error: ", args[0])
+	})
+	reg("(runtime.errorString).RuntimeError", nop)
 	reg("internal/abi.Escape", nop)
 	reg("runtime.GC", nop)
 	reg("runtime.Gosched", nop)
@@ -760,6 +804,7 @@ func init() {
 }
 
 var onceDone = map[*Val]bool{}
+var pendingBigRecv *bigArg
 
 func strBytes2(v Val) []Val {
 	if s, ok := v.([]Val); ok {
@@ -1077,4 +1122,74 @@ func callRtypeMethod(fr *frame, m rtypeMethod, args []Val) Val {
 	}
 	unsupported("reflect.Type." + m.name)
 	return nil
+}
+
+func init() {
+	reg("github.com/ohler55/slip.IsNil", func(fr *frame, fn *ssa.Function, args []Val) Val {
+		i := args[0].(Iface)
+		if i.t == nil {
+			return true
+		}
+		switch i.t.Underlying().(type) {
+		case *types.Pointer, *types.Map, *types.Chan, *types.Signature:
+			return isNilVal(i.v)
+		}
+		return false
+	})
+	reg("github.com/ohler55/slip/pkg/cl.eq", func(fr *frame, fn *ssa.Function, args []Val) Val {
+		x, y := args[0].(Iface), args[1].(Iface)
+		if x.t == nil || y.t == nil {
+			return x.t == nil && y.t == nil
+		}
+		if !types.Identical(x.t, y.t) {
+			return false
+		}
+		if namedPath(x.t) == in.modPath+".Symbol" {
+			return fromBoolTerm(strEqTerm(x.v, y.v))
+		}
+		switch x.t.Underlying().(type) {
+		case *types.Pointer, *types.Map, *types.Chan:
+			r := equals(fr, nil, types.NewPointer(types.Typ[types.Int]), x.v, y.v)
+			if xm, ok := x.v.(*Map); ok {
+				ym, _ := y.v.(*Map)
+				return xm == ym
+			}
+			return r
+		case *types.Signature:
+			return x.v == y.v
+		}
+		// same interface word: either the same box, or both values live in the
+		// runtime's shared static storage (integers < 256, bools, "", nil slice)
+		if x.box != 0 && x.box == y.box {
+			return true
+		}
+		static := func(i Iface) *Term {
+			switch v := i.v.(type) {
+			case int64:
+				w, _, _ := intInfo(i.t)
+				return mkBool(i.box == 0 || uint64(v)&mask(w) < 256)
+			case *Term:
+				if v.sort.K == KBV {
+					return mkCmp(OUlt, v, mkBV(256, v.sort.W))
+				}
+			}
+			return mkBool(i.box == 0)
+		}
+		same := tFalse
+		switch xv := x.v.(type) {
+		case int64, *Term:
+			if w, _, ok := intInfo(x.t); ok {
+				same = mkEq(toBV(x.v, w), toBV(y.v, w))
+			} else if xb, isB := xv.(*Term); isB && xb.sort.K == KBool {
+				same = mkEq(xb, toBoolTerm(y.v))
+			}
+		case bool:
+			same = mkEq(mkBool(xv), toBoolTerm(y.v))
+		case string, SymStr, []Val:
+			same = tTrue // static only when empty/nil
+		default:
+			same = mkBool(x.box == 0 && y.box == 0)
+		}
+		return fromBoolTerm(mkAndN(static(x), static(y), same))
+	})
 }
